@@ -34,7 +34,9 @@ CHECKS = {
  "C05": ("on the faithful engine model: lub / permutation invariance / monotonicity proved for every hierarchy and "
          "any number of chain arguments (identity and nested covariant contexts, Top/Bottom included), glb for the "
          "contravariant reading, and C05_*_octx for ARBITRARY one-hole contexts of any arity, variance and depth with "
-         "concrete siblings (polarity decides lub vs glb); above/below characterised; C05_fix_least: fix() of any single-polarity type binds "
+         "concrete siblings (polarity decides lub vs glb); C05_mixed_iff/_success/_perm/_mono: a different context and polarity per "
+         "parameter and any result context r - accepted iff the greatest covariant argument is below the least "
+         "contravariant one, x resolved to it by r's polarity, result r(L) / r(U), invariant under permuting the arguments; above/below characterised; C05_fix_least: fix() of any single-polarity type binds "
          "exactly the polarity-appropriate bounds and is below every instantiation within the bounds; explicit fuel "
          "bounds; remaining argument contexts decided per generated case on model and implementation",
          "4 C05", "Coq proof by induction over the argument list on the engine model + correspondence + oracle"),
